@@ -17,6 +17,14 @@ func hCase(audit, id, format string, a ...interface{}) {
 	fmt.Printf("bounded: CASE %s/%s: %s\n", audit, id, fmt.Sprintf(format, a...))
 }
 
+// hEnd: the audit ran to its end and every failure it saw was printed as a CASE line. govc takes an audit's
+// failing cases for known findings only if this marker is there: a failure on another path (an early
+// "return false", a panic) must not hide behind cases that are listed.
+func hEnd(audit string, ok bool) bool {
+	fmt.Printf("bounded: END %s\n", audit)
+	return ok
+}
+
 // hP2Token / hP1Token: conformant tokens from the independent writer, with one entry replaced / added.
 func hP2KVs() []kv {
 	comp := wMap([]kv{{2, wBytes(hBytes(32, 1))}, {5, wBytes(hBytes(48, 2))}})
@@ -94,7 +102,7 @@ func boundedStrictCBOR() bool {
 			expect(x.id+"-"+base.n, wMapRaw(append(hRawPairs(base.kvs, 1<<62), [2][]byte{x.key, wInt(1)})), true, "conformant token plus an unknown extra key")
 		}
 	}
-	return ok
+	return hEnd(A, ok)
 }
 
 // boundedStrictReencode (C09, second sentence): a token that decodes but is not valid never re-encodes to
@@ -156,7 +164,7 @@ func boundedStrictReencode() bool {
 			ok = false
 		}
 	}
-	return ok
+	return hEnd(A, ok)
 }
 
 // boundedStrictSignature (C02): a signature replaced by OTHER bytes never verifies -- here ECDSA's (r, n-s).
@@ -199,5 +207,5 @@ func boundedStrictSignature() bool {
 			ok = false
 		}
 	}
-	return ok
+	return hEnd(A, ok)
 }
